@@ -7,6 +7,17 @@ import (
 	"sync"
 )
 
+// Emb and DeepEmb are EMBEDDED in Host and Inner: their fields are promoted (H.EI, H.In.DX, H.Pn.DX are
+// ordinary Go fields of the injected data).
+type Emb struct {
+	EI int64
+	EU uint16
+	EF float64
+	ES string
+}
+
+type DeepEmb struct{ DX int32 }
+
 // Inner is reached through two-level paths H.In.X (struct value) and H.Pn.X (struct pointer).
 type Inner struct {
 	X  int64
@@ -16,6 +27,7 @@ type Inner struct {
 	S  string
 	B  bool
 	F3 float32
+	DeepEmb
 }
 
 // Meth is a method target with value receiver (callable through H.In.Sum / H.Pn.Sum).
@@ -43,6 +55,8 @@ type Host struct {
 	MI  map[int]string
 	SL  []int32
 	AR  [4]uint8
+	Emb
+	AW  [3]int64 // array field whose elements rules store into (locals bound to the whole array keep its value)
 
 	rec *Recorder
 }
@@ -183,12 +197,14 @@ func NewFixture(seed int64) *Fixture {
 			U: uint(pickU(r, 64)), U8: uint8(pickU(r, 8)), U16: uint16(pickU(r, 16)), U32: uint32(pickU(r, 32)), U64: pickU(r, 64),
 			F32: F32Pool[r.Intn(len(F32Pool))], F64: F64Pool[r.Intn(len(F64Pool))],
 			S: StrPool[r.Intn(len(StrPool))], B: r.Intn(2) == 0,
-			In:  Inner{X: pickI(r, 64), Y: uint16(pickU(r, 16)), Z: F64Pool[r.Intn(len(F64Pool))], W: int8(pickI(r, 8)), S: StrPool[r.Intn(len(StrPool))], B: r.Intn(2) == 0, F3: F32Pool[r.Intn(len(F32Pool))]},
-			Pn:  &Inner{X: pickI(r, 64), Y: uint16(pickU(r, 16)), Z: F64Pool[r.Intn(len(F64Pool))], W: int8(pickI(r, 8)), S: StrPool[r.Intn(len(StrPool))], B: r.Intn(2) == 0, F3: F32Pool[r.Intn(len(F32Pool))]},
+			In:  Inner{X: pickI(r, 64), Y: uint16(pickU(r, 16)), Z: F64Pool[r.Intn(len(F64Pool))], W: int8(pickI(r, 8)), S: StrPool[r.Intn(len(StrPool))], B: r.Intn(2) == 0, F3: F32Pool[r.Intn(len(F32Pool))], DeepEmb: DeepEmb{DX: int32(pickI(r, 32))}},
+			Pn:  &Inner{X: pickI(r, 64), Y: uint16(pickU(r, 16)), Z: F64Pool[r.Intn(len(F64Pool))], W: int8(pickI(r, 8)), S: StrPool[r.Intn(len(StrPool))], B: r.Intn(2) == 0, F3: F32Pool[r.Intn(len(F32Pool))], DeepEmb: DeepEmb{DX: int32(pickI(r, 32))}},
 			MS:  map[string]int64{"a": pickI(r, 64), "b": pickI(r, 64), "k3": 3},
 			MI:  map[int]string{0: "zero", 1: "one", -5: "minus five"},
 			SL:  []int32{int32(pickI(r, 32)), 2, int32(pickI(r, 32)), 4},
 			AR:  [4]uint8{uint8(pickU(r, 8)), 1, 2, uint8(pickU(r, 8))},
+			AW:  [3]int64{pickI(r, 16), 7, pickI(r, 32)},
+			Emb: Emb{EI: pickI(r, 64), EU: uint16(pickU(r, 16)), EF: F64Pool[r.Intn(len(F64Pool))], ES: StrPool[r.Intn(len(StrPool))]},
 			rec: rec,
 		}
 	}
@@ -251,6 +267,8 @@ func (f *Fixture) Table() map[string]interface{} {
 		// tb observes the evaluation of a condition: a condition evaluated twice shows twice in the trace
 		"tb":  func(id int64, b bool) bool { rec.add(id, b); return b },
 		"ix1": int64(1),
+		// float64 values no literal can spell
+		"NNaN": math.NaN(), "NPInf": math.Inf(1), "NNInf": math.Inf(-1),
 		"pass": func(v interface{}) interface{} { return v },
 		// several results: the rule gets the first one
 		"pr2": func(id int64, v int64) (int64, string, error) { rec.add(id, v); return v + 1, "second", nil },
@@ -313,7 +331,7 @@ func DiffState(a, b State) []string {
 func deepSame(a, b reflect.Value) bool {
 	switch a.Kind() {
 	case reflect.Float32, reflect.Float64:
-		return math.Float64bits(a.Float()) == math.Float64bits(b.Float())
+		return math.Float64bits(a.Float()) == math.Float64bits(b.Float()) || (math.IsNaN(a.Float()) && math.IsNaN(b.Float()))
 	case reflect.Struct:
 		for i := 0; i < a.NumField(); i++ {
 			if a.Type().Field(i).PkgPath != "" {
